@@ -1885,6 +1885,15 @@ func extractDatumOffsets(datumArrayData []byte, baseOffset uint32, result map[Bl
 		return
 	}
 
+	// The datum list may be a set, which is the array wrapped in tag 258.
+	// The datums start after the tag header and the array header
+	tagHeaderSize := cborTagHeaderSize(datumArrayData)
+	datumArrayData = datumArrayData[tagHeaderSize:]
+	baseOffset += tagHeaderSize
+	if len(datumArrayData) < 1 {
+		return
+	}
+
 	// Get array info from header
 	count, headerSize, indefinite := cborArrayInfo(datumArrayData)
 	if count < 0 && !indefinite {
